@@ -285,7 +285,8 @@ def seq_job(arg):
                                 pmap[p] = key
                     elif op == "resync":
                         # the long-lived handle commits again exactly what it committed last
-                        if last_sync is not None:
+                        if last_sync is not None and all(k_ in blobs for k_ in last_sync.values()):
+                            # (only keys that are present are ever committed: that is the caller's side of the contract)
                             st.sync_paths(last_sync)
                             rep.count("recommits_of_last_map")
                             for p, key in last_sync.items():
